@@ -559,6 +559,12 @@ func (k Keeper) LimitOrderBid(ctx sdk.Context) error {
 				// in any of the case update both user bids and individual auctions
 
 				for _, individualBids := range biddingData {
+					// an earlier fill of this block has changed (or closed) the auction: work on its stored state
+					current, err := k.GetAuction(ctx, auction.AuctionId)
+					if err != nil {
+						return nil
+					}
+					auction = current
 					addr, _ := sdk.AccAddressFromBech32(individualBids.BidderAddress)
 					if individualBids.DebtToken.Amount.GTE(auction.DebtToken.Amount) {
 						//User has more tokens than target debt, so their bid will close the auction
